@@ -15,7 +15,8 @@ Proof. vm_compute. reflexivity. Qed.
 (** requiredGas has its length guard, bankMsgSend validates denom and amount before sdk.NewCoin,
     sendToEvm / getErc20Address keep NUL characters away from the collections index, sendToBank checks
     the 256-bit bound of the bank supply before MintCoins, evm.NewRevertError (applied by the keeper to the revert data of
-    every contract a precompile body calls) never slices that data beyond a length it has established, OnRunStart
+    every contract a precompile body calls) never slices that data beyond a length it has established, asset.TryNewPair refuses
+    every pair string of the hostile table (NUL / garbage anywhere around and inside a well-formed pair), OnRunStart
     installs the limited local gas meter, all three Run methods defer HandleOutOfGasPanic *)
 Theorem C08_current_panic_guards_ok : panic_ok current_facts = true.
 Proof. vm_compute. reflexivity. Qed.
